@@ -38,11 +38,11 @@ CHECKS = {
             "quick": 6000, "thorough": 400000, "level": "exploration"},
     "C15": {"engine": "history", "profiles": ["lifetime"], "quick": 6000, "thorough": 400000, "level": "exploration"},
     "C16": {"engine": "history", "profiles": ["fingerprint"], "quick": 6000, "thorough": 400000, "level": "exploration"},
-    "C17": {"engine": "names", "profiles": ["names"], "quick": 6000, "thorough": 400000, "level": "exploration"},
+    "C17": {"engine": "history", "profiles": ["names"], "gen": "names", "quick": 6000, "thorough": 400000, "level": "exploration"},
     "C18": {"engine": "history", "profiles": ["derive"], "quick": 6000, "thorough": 400000, "level": "exploration"},
     "C08": {"engine": "c08", "quick": 1500, "thorough": 100000, "level": "fault_enumeration"},
-    "C09": {"engine": "c09", "quick": 1200, "thorough": 60000, "level": "exploration"},
-    "C12": {"engine": "c12", "quick": 1200, "thorough": 60000, "level": "exploration"},
+    "C09": {"engine": "c09", "hashseeds": True, "quick": 1200, "thorough": 60000, "level": "exploration"},
+    "C12": {"engine": "c12", "hashseeds": True, "quick": 1200, "thorough": 60000, "level": "exploration"},
 }
 
 
@@ -57,14 +57,15 @@ def run_index(check, seed, idx):
         w, knobs, steps, vid = swarm(rng, profile)
         if check == "C15" and idx % 10 == 0:
             steps = rng.randint(300, 1200)      # process-lifetime runs
-        gen = Gen(rng, w, knobs)
+        if spec.get("gen") == "names":
+            from oracles.c17 import NamesGen
+            gen = NamesGen(rng, w, knobs)
+        else:
+            gen = Gen(rng, w, knobs)
         res = engine.run(_oracles(check), gen=gen, rng=rng, max_steps=steps, vid_knobs=vid)
         res["profile"] = profile
         res["prng"] = s
         return res
-    if eng == "names":
-        from oracles import c17
-        return c17.run_index(check, seed, idx)
     if eng == "c08":
         from oracles import c08
         return c08.run_index(check, seed, idx)
@@ -83,9 +84,6 @@ def replay_trace(check, trace):
     eng = spec["engine"]
     if eng == "history":
         return engine.run(_oracles(check), trace=trace, keep_log=True)
-    if eng == "names":
-        from oracles import c17
-        return c17.replay(check, trace)
     if eng == "c08":
         from oracles import c08
         return c08.replay(check, trace)
